@@ -68,7 +68,7 @@ def rand_doc(rng, maxtok=14, broken=0.0):
         elif r < 0.40:
             toks.append({'t': 'skip', 'why': rng.choice(['unknown-class', 'non-dict'])})
         elif r < 0.40 + broken:
-            toks.append({'t': 'broken'})
+            toks.append({'t': 'broken', 'how': rng.choice(['component', 'interface'])})
         else:
             kind = rng.choice(KINDS)
             tok = {'t': 'decl', 'kind': kind, 'name': rand_ids(rng, 1, 2), 'pay': rand_payload(rng, kind), 'types': []}
